@@ -152,6 +152,24 @@ def parse_objs(path):
     return objs
 
 
+def objs_tokens(path, idx):
+    try:
+        return parse_objs(path)[idx]["d1"].split()
+    except Exception:
+        return []
+
+
+def strip_kinds(tok):
+    """drop the payload of every "dimension_kinds" line (a grid that comes out marked empty neither reads nor prints it)"""
+    out, skip = [], False
+    for t in tok:
+        if skip and t.isdigit():
+            continue
+        skip = t == "dimension_kinds"
+        out.append(t)
+    return out
+
+
 def flag_diff(t1, t2):
     """positions where two equally long token lists differ, or None when the lengths differ"""
     if len(t1) != len(t2):
@@ -238,7 +256,7 @@ def input_cs_appended(t1, t3):
     for a, b in zip(s1, s3):
         if a == b:
             continue
-        if a[0] not in APPENDED or len(a) < 3 or len(b) <= len(a) or a[2] != ")" or b[2] != ")":
+        if a[0] not in APPENDED or len(a) < 3 or len(b) < len(a) or a[2] != ")" or b[2] != ")":
             return False
         if not (a[1].isdigit() and b[1].isdigit() and int(b[1]) > int(a[1])):
             return False
@@ -356,7 +374,7 @@ def _run(chk, exe, judge, wit, work):
         rc, out = common.sh([exe, str(hseed), str(count), objf, str(maxmut)], timeout=1500)
         lines = out.split("\n")
         done = any(l.startswith("DONE ") for l in lines)
-        R, Mc, base, last_b = {}, {}, defaultdict(set), None
+        R, Mc, base, last_b, last_mb = {}, {}, defaultdict(set), None, None
         for l in lines:
             if l.startswith("R "):
                 p = l.split()
@@ -369,6 +387,19 @@ def _run(chk, exe, judge, wit, work):
                 base[p[1]].add(p[2])
             elif l.startswith("B "):
                 last_b = l
+            elif l.startswith("MB "):
+                last_mb = l.split()
+            elif l.startswith("CRASH "):
+                p = l.split()
+                # the last announced mutated load of that object is the one that did not return
+                tk = objs_tokens(objf, int(p[1]))
+                pos, kind = (int(last_mb[2]), last_mb[3]) if last_mb and last_mb[1] == p[1] else (-1, "?")
+                chk.failure({"site": p[2] + "::ascii_load", "kind": "crash-on-malformed-stream"},
+                            {"harness_seed": hseed, "index": int(p[1]), "maxmut": maxmut, "class": p[2], "exit_status": p[3],
+                             "token_index": pos, "mutation": {"D": "token deleted", "R": "token replaced by @@"}.get(kind, kind),
+                             "token": tk[pos] if 0 <= pos < len(tk) else None,
+                             "context": " ".join(tk[max(0, pos - 6):pos + 4]) if pos >= 0 else None})
+                stats["mutant_crashes"] += 1
         objs = parse_objs(objf) if os.path.exists(objf) else {}
         if not done:
             # the real library crashed (or was killed) inside a dump / load / battery: a failure of the property
@@ -440,7 +471,7 @@ def _run(chk, exe, judge, wit, work):
                 sc = STATUS_CLASS.get(cls)
                 if r["used_load"] == "1" and sc in ("ph", "grid", "bds", "og") and (tfl & 1):
                     # a grid that comes out marked empty does not read / print its dimension kinds
-                    fl = only_stale_set(cut_dimension_kinds(t1), cut_dimension_kinds(t3), ("EM",)) if sc == "grid" \
+                    fl = only_stale_set(strip_kinds(t1), strip_kinds(t3), ("EM",)) if sc == "grid" \
                         else only_stale_set(t1, t3, ("EM",))
                     if fl:
                         info = {"site": "Status::ascii_load", "kind": "stale-empty-flag-in-used-target"}
@@ -451,7 +482,7 @@ def _run(chk, exe, judge, wit, work):
                 if info is None and cls in ("Constraints_Product_C_Grid", "Direct_Product_NNC_BDS", "Pointset_Powerset_C") \
                         and r["used_load"] == "1":
                     # components are loaded in place: same root cause as above, seen through the container
-                    fl = only_stale_set(t1, t3, ("EM",))
+                    fl = only_stale_set(strip_kinds(t1), strip_kinds(t3), ("EM",))
                     if fl:
                         info = {"site": "Status::ascii_load", "kind": "stale-empty-flag-in-used-target"}
                 if info is None and cls in ("MIP_Problem", "PIP_Problem") and r["used_load"] == "1" and input_cs_appended(t1, t3):
@@ -480,6 +511,9 @@ def _run(chk, exe, judge, wit, work):
         # ---- (vi) malformed streams
         for k, a in Mm.items():
             if only is not None and k[0] != only:
+                continue
+            if k not in Mc:                 # the real loader never returned from an earlier mutant of this object (CRASH line)
+                stats["mutants_lost_after_crash"] += 1
                 continue
             stats["mutants_compared"] += 1
             if a == "1":
